@@ -101,7 +101,18 @@ Proof.
   - destruct (Nat.eqb n 1) eqn:E; cbn; [|discriminate]. apply Nat.eqb_eq in E. destruct (x =? 1)%Z; intros H; inversion H. lia.
   - destruct (Nat.eqb n 1) eqn:E; cbn; [|discriminate]. apply Nat.eqb_eq in E.
     destruct ((x =? 1)%Z || (x =? 4)%Z || (x =? 5)%Z); intros H; inversion H. lia.
+  - discriminate.
 Qed.
+
+Lemma run_select_in_lt b mx v i : run_select_in b mx v = Ok (Some i) -> i < length (mx_ins mx).
+Proof.
+  unfold run_select_in. destruct (mx_fun mx) as [| | |g]; try apply run_select_lt.
+  destruct (g (input_values b mx) v) as [[j|]|]; try discriminate.
+  destruct (Nat.ltb j (length (mx_ins mx))) eqn:E; [|discriminate]. intros H. inversion H; subst. apply Nat.ltb_lt. exact E.
+Qed.
+
+Lemma run_select_in_chans b b' mx v : b_chans b' = b_chans b -> run_select_in b' mx v = run_select_in b mx v.
+Proof. intros H. unfold run_select_in, input_values. rewrite H. reflexivity. Qed.
 
 (* ---------------------------------------------------------------- one mux changes its enabled inputs *)
 
